@@ -104,6 +104,14 @@ pub fn limb_patterns(seed: u64) -> Vec<BigUint> {
     // a value whose double, triple ... lands just above p
     v.push((p() + big(5)) / big(2));
     v.push((p() + big(7)) / big(3));
+    // values whose Montgomery representation (v * 2^256 mod p, what the evaluators and hashers compute on) is itself
+    // a boundary value, and the boundary values' own representations
+    let r = pow2(256) % p();
+    let rinv = finv(&r).unwrap();
+    for b in [big(1), big(2), p() - big(1), pow2(64), pow2(128), pow2(192), (p() - big(1)) / big(2)] {
+        v.push(fmul(&b, &rinv));
+        v.push(fmul(&b, &r));
+    }
     v.sort();
     v.dedup();
     v
